@@ -783,3 +783,31 @@ def const_index_instances(r, repo, funcs, skip=(), what='a shorter value raises 
             else:
                 r.undecided(key, site_of(f, x), 'whether `%s` is guarded is not decided by the guard algebra' % norm(x))
     return n
+
+
+def fix_length(e, name, n):
+    """`e` with the subscripts of the sequence `name`, known to have exactly n elements at this point, written with
+    explicit non-negative bounds: x[a:] -> x[a:n], x[-k] -> x[n-k], x[:-k] -> x[0:n-k] (so that spellings which differ only
+    because the length is known read alike)"""
+    e = ast.parse(ast.unparse(e), mode='eval').body
+
+    def pos(b, default):
+        if b is None:
+            return ast.Constant(value=default)
+        if isinstance(b, ast.UnaryOp) and isinstance(b.op, ast.USub) and isinstance(b.operand, ast.Constant) and isinstance(b.operand.value, int):
+            return ast.Constant(value=n - b.operand.value)
+        if isinstance(b, ast.BinOp) and isinstance(b.op, ast.Sub) and norm(b.left) == 'len(%s)' % name and isinstance(b.right, ast.Constant):
+            return ast.Constant(value=n - b.right.value)
+        if isinstance(b, ast.Call) and norm(b) == 'len(%s)' % name:
+            return ast.Constant(value=n)
+        return b
+    for x in ast.walk(e):
+        if isinstance(x, ast.Subscript) and isinstance(x.value, ast.Name) and x.value.id == name:
+            if isinstance(x.slice, ast.Slice):
+                if x.slice.step is None:
+                    lo = pos(x.slice.lower, 0)
+                    x.slice.lower = None if (isinstance(lo, ast.Constant) and lo.value == 0) else lo
+                    x.slice.upper = pos(x.slice.upper, n)
+            else:
+                x.slice = pos(x.slice, 0)
+    return ast.fix_missing_locations(e)
